@@ -7,7 +7,8 @@ ROOT = os.path.dirname(os.path.dirname(os.path.abspath(__file__)))
 PBT = "property-based testing (Hypothesis generators, 16 PYTHONHASHSEED shards) against an independent reference model"
 CHECKS = {
  "C01": (PBT + "; exact language comparison by product construction; exhaustive small scope",
-         "Generated automata of the three classes (8 state-name pools incl. names that look like merged-state names, 6 symbol pools) "
+         "Generated automata of the three classes (8 state-name pools incl. names that look like merged-state names, 6 symbol pools; built by mutators, "
+         "by the constructors incl. the full 5-tuple, with queries interleaved with the build and with transitions added and removed again) "
          "and every 2-state (thorough: every 3-state single-start) epsilon-NFA over {a,eps}: accepts on all words <=3 (+foreign symbol, "
          "+epsilon tokens) equals the reference run semantics; to_deterministic / remove_epsilon_transitions / minimize / copy are extracted "
          "through public observers and compared exactly (product equivalence, shortest distinguishing word) plus shape clauses. "
@@ -38,7 +39,7 @@ CHECKS = {
          "DESIGN.md section 4, C04"),
  "C05": (PBT + " (reference regex AST -> Thompson NFA, strict recogniser for the ill-formed side); exact language comparison",
          "Well-formed side: ASTs rendered to text with random surface syntax; Regex(text) must build, its extracted epsilon-NFA must equal "
-         "Thompson(AST) exactly, accepts/to_cfg/contains agree on all words <=3, union/concatenate/kleene_star and | + equal the reference "
+         "Thompson(AST) exactly, accepts (lists, tuples, generators) / to_cfg (default and explicit start symbol) / contains agree on all words <=3, union/concatenate/kleene_star and | + equal the reference "
          "combination, str(regex) parses back to the same language, operands keep their meaning. Ill-formed side: 1-2 token edits labelled by a "
          "strict recogniser; 'ill' must raise MisformedRegexError, 'ok' must be accepted with the right language, nothing but "
          "MisformedRegexError may escape. Exploration.",
@@ -47,13 +48,15 @@ CHECKS = {
  "C07": (PBT + " (differential testing against CPython re.fullmatch; AST-based pattern generator with positive sampling)",
          "Patterns generated from an AST over the documented subset with strings sampled from the AST, their one-edit mutations, all one-character "
          "strings and random strings: PythonRegex(p).accepts(s) == (re.fullmatch(p, s) is not None); patterns rejected by re.compile must be refused. "
-         "Four genuine defects of the set handling stay open (known_findings.json: F07d leading ], F07e shortcut followed by a metacharacter in a set, "
-         "F07f escaped backslash before d/w/s, F07g negated sets with escapes/shortcuts): their witnesses are replayed and reported as KNOWN-FINDING, "
+         "Subjects include the printable whitespace characters. Five genuine defects of the set handling stay open (known_findings.json: F07d leading ], "
+         "F07e shortcut followed by a metacharacter in a set, F07f escaped backslash before d/w/s, F07g negated sets with escapes/shortcuts, F07h negated "
+         "set with a leading '-'): their witnesses are replayed and reported as KNOWN-FINDING, "
          "their feature classes are excluded by construction from generation (counted in excluded_by_finding). Exploration.",
          "Trusts CPython's re; '[' inside a set is left out (Python itself warns about its future meaning).",
          "DESIGN.md section 4, C07"),
  "C08": (PBT + " (bounded language by least fixpoint, no parser); exhaustive small scope in the thorough tier",
-         "Generated grammars (epsilon/unit/recursive/useless productions, shared spellings, reserved fresh names, both constructors): contains, "
+         "Generated grammars (epsilon/unit/recursive/useless productions, shared spellings, int/str twins, reserved fresh names, both constructors): contains "
+         "(word as list, tuple, one-shot generator, Terminal objects), "
          "`in`, generate_epsilon on every word <=3 over terminals+foreign and the members / some non-members of length 4 must equal membership in the "
          "reference bounded language. Thorough additionally enumerates every grammar with <=3 productions over {S,A}x{a,b} bodies <=2. Exploration.",
          "Trusts vlib/ref_cfg.py least fixpoints; <=4 variables, <=8(+) productions.",
@@ -91,7 +94,8 @@ CHECKS = {
  "C15": (PBT + " (validity predicate over trees and derivations; membership oracle)",
          "CNF trees, LL(1) trees, recursive-descent trees (left and right, on grammars where it terminates) and FCFG Earley trees are validated node by node "
          "against the production set of the grammar parsed, leaves against the word, and both derivations step by step; a tree is returned iff the word is a "
-         "member, otherwise the documented exception. Exploration.",
+         "member, otherwise the documented exception. Where the word is documented as an iterable it is passed as a list, a tuple and a one-shot iterator "
+         "in turn. A tree too large to validate makes the case inconclusive, never a violation. Exploration.",
          "Trusts vlib/trees.py predicates and the reference membership oracles; recursive-descent parser only run where it is guaranteed to terminate.",
          "DESIGN.md section 4, C15"),
  "C12": (PBT + " (reference fixpoints for emptiness, finiteness, symbol classes, bounded enumeration)",
@@ -128,8 +132,9 @@ CHECKS = {
          "Trusts vlib/ref_fs.py; one value domain {u,v} for all features; structures of depth <=3.",
          "DESIGN.md section 4, C18"),
  "C19": ("stateful property-based testing (Hypothesis RuleBasedStateMachine per object family; twin rebuilt from the recipe as the model)",
-         "Histories of builds, conversions, combinations (same object as both operands), shared State/Symbol objects, explicit queries and mutations of "
-         "returned objects over five object families; after every step every pooled object must answer a battery of public queries exactly like a twin "
+         "Histories of builds, conversions, combinations (same object as both operands), shared State/Symbol objects, explicit queries, mutations of "
+         "returned and of user-built objects (loops, removed transitions, edits chosen by rank incl. count-preserving ones, indexed-grammar productions), "
+         "the same operation before and after an edit of its operand, over five object families; after every step every pooled object must answer a battery of public queries exactly like a twin "
          "rebuilt from its recipe, and no operand's structural snapshot may change. The shrunk history (JSON) is replayed by a plain interpreter without "
          "Hypothesis. One genuine defect stays open (F19d: the result of IndexedGrammar.intersection cannot be intersected again). Exploration: histories "
          "are sampled.",
@@ -139,7 +144,8 @@ CHECKS = {
          "Automata, PDAs and transducers over JSON-representable values (odd strings, floats, names like starting_q / INITIAL_STACK_HIDDEN, isolated "
          "states, parallel edges, multi-symbol pushes/outputs): from_networkx(to_networkx(x)) has the same states, marking, transitions and start stack "
          "symbol; CFG.from_text(to_text()) has the same productions and bounded language incl. VAR:/TER: markers; RecursiveAutomaton.from_ebnf / "
-         "from_regex give one box per head, exactly equivalent to the reference union of its right-hand sides. Exploration.",
+         "from_regex give one box per head, exactly equivalent to the reference union of its right-hand sides, each box with an automaton of its own "
+         "(editing one leaves the others unchanged). Exploration.",
          "Trusts the extraction helpers and vlib/ref_regex.py; values restricted to the property's domain.",
          "DESIGN.md section 4, C20"),
 }
